@@ -9,7 +9,7 @@ registers of the AXI converters obey the stream stability rule (registered only 
 data path has one cycle of latency, combinational otherwise).
 Not decided: the address sequence itself, len/size arithmetic, byte order through the stride converters."""
 import ast
-from ..core import AnalysisError, norm, const_fold
+from ..core import AnalysisError, norm, const_fold, cnorm
 from .. import boolx as B
 from .. import q
 from ..rules_stream import fx_of, fail_closed, prio, short, s5_omit, _lit_set
@@ -34,7 +34,9 @@ def _sig(a, frm, to):
     def ren(s):
         return s.replace(f".{frm}.", f".{to}.").replace(f".{frm} ", f".{to} ").replace(f".{frm})", f".{to})")
     t = a.t if not a.t.endswith("." + frm) else a.t[:-len(frm)] + to
-    return (a.domain, ren(t), ren(a.v), ren(a.gtext()), tuple(a.pyguards))
+    # operand order of commutative operators is not part of the comparison (cnorm); guards compared as sorted conjunct lists
+    g = tuple(sorted(("" if p else "~") + cnorm(ren(norm(c))) for c, p in a.guards))
+    return (a.domain, ren(t), cnorm(ren(a.v)), g, tuple(a.pyguards))
 
 
 def run(ctx):
@@ -107,11 +109,11 @@ def run(ctx):
         want = B.And(H, B.A("ax_beat.last"))
         if reg == "beat_offset":
             want = B.And(want, B.Not(W))
-        ok = len(z) == 1 and B.equivalent(z[0].eff(), want)
+        ok = len(z) == 1 and q.EQ(z[0], want)
         ctx.ob("U1", AF, "AXIBurst2Beat", f"{reg} returns to 0 with the last beat", ok,
                "" if ok else f"{[(a.v, a.gtext()) for a in z]}: the next burst starts from a stale {reg}")
     inc = [a for a in fx.find(domain="sync", target="beat_count") if a.v == "beat_count + 1"]
-    ok = len(inc) == 1 and B.equivalent(inc[0].eff(), B.And(H, B.Not(B.A("ax_beat.last"))))
+    ok = len(inc) == 1 and q.EQ(inc[0], B.And(H, B.Not(B.A("ax_beat.last"))))
     ctx.ob("U1", AF, "AXIBurst2Beat", "count + 1 on every non-last beat", ok, "" if ok else f"{[a.gtext() for a in inc]}")
     adv = [a for a in fx.find(domain="sync", target="beat_offset") if a.v == "beat_offset + beat_size"]
     wrp = [a for a in fx.find(domain="sync", target="beat_offset") if a.v == "beat_offset - beat_wrap"]
@@ -119,7 +121,7 @@ def run(ctx):
     if ok:
         G = adv[0].eff()
         cap = B.from_expr("((ax_burst.burst == BURST_INCR) & (BURST_INCR in capabilities)) | ((ax_burst.burst == BURST_WRAP) & (BURST_WRAP in capabilities))")
-        ok = B.equivalent(G, B.And(H, B.Not(B.A("ax_beat.last")), cap, B.Not(W)))
+        ok = q.EQ(adv[0], B.And(H, B.Not(B.A("ax_beat.last")), cap, B.Not(W)))
     ctx.ob("U1", AF, "AXIBurst2Beat", "offset advances only for INCR / WRAP (with capability) on non-last beats", ok,
            "" if ok else f"{[a.gtext() for a in adv]}: FIXED bursts would walk through memory / INCR bursts would not", adv[0].line if adv else 0)
     ok = len(wrp) == 1 and len(adv) == 1
@@ -130,7 +132,7 @@ def run(ctx):
     ctx.ob("U1", AF, "AXIBurst2Beat", "wrap subtraction for WRAP at the boundary, later than the increment (priority)", ok,
            "" if ok else f"{[(a.gtext()) for a in wrp]} / order", wrp[0].line if wrp else 0)
     br = fx.find(domain="comb", target="ax_burst.ready")
-    ok = len(br) == 1 and br[0].v == "1" and B.equivalent(br[0].eff(), B.from_expr("ax_beat.ready & ax_beat.last"))
+    ok = len(br) == 1 and br[0].v == "1" and q.EQ(br[0], B.from_expr("ax_beat.ready & ax_beat.last"))
     ctx.ob("U1", AF, "AXIBurst2Beat", "burst consumed only at beat ready & last", ok,
            "" if ok else f"{[(a.v, a.gtext()) for a in br]}: the request is dropped before all beats were issued or consumed twice")
     for t, v in (("ax_beat.first", "beat_count == 0"), ("ax_beat.last", "beat_count == ax_burst.len"), ("ax_beat.addr", "ax_burst.addr + beat_offset"),
@@ -226,7 +228,7 @@ def run(ctx):
                (low or full)[0].line if (low or full) else 0)
         sz = [a for a in fx.find(domain="comb", target=f"axi_to.{ch}.size") if a.v != f"axi_from.{ch}.size"]
         ok = len(sz) == 1 and sz[0].v == f"log2_int({narrow} // 8)" and \
-            B.equivalent(sz[0].eff(), B.Not(B.from_expr(f"axi_from.{ch}.size <= log2_int({narrow} // 8)")))
+            q.EQ(sz[0], B.Not(B.from_expr(f"axi_from.{ch}.size <= log2_int({narrow} // 8)")))
         ctx.ob("U5", AF, "AXIDownConverter", f"{ch}: size clamped at log2(narrow bytes)", ok, "" if ok else f"{[(a.v, a.gtext()) for a in sz]}")
     conv = {i.name: i for i in fx.insts if i.cls.endswith("StrideConverter") and i.call is not None}
 
@@ -264,7 +266,7 @@ def run(ctx):
     for fld in ("resp", "id", "user", "dest"):
         d = [a for a in fx.find() if a.t == f"axi_from.r.{fld}"]
         ok = len(d) == 1 and d[0].domain.startswith("sync") and d[0].v == f"axi_to.r.{fld}" and \
-            B.entails(d[0].eff(), B.from_expr("axi_to.r.valid & axi_to.r.ready"))
+            q.IMP(d[0], B.from_expr("axi_to.r.valid & axi_to.r.ready"))
         ctx.ob("U3", AF, "AXIDownConverter", f"r.{fld} registered only on an accepted narrow beat", ok,
                "" if ok else f"{[(a.domain, a.v, a.gtext()) for a in d]}: the side-band of a stalled wide word changes to the next beat's",
                d[0].line if d else 0)
